@@ -32,7 +32,7 @@ CONFIG = dict(
 CONFIG.update(
     level_text=("Lean 4 theorems over the model of Logger/LogConfig/Step/Log and CompressedLog: one logger execution appends exactly the "
                 "specified step (first fired rule of a name wins, null for a missing source, iteration entry in front unless logged by a "
-                "rule, nothing if nothing fired; each trigger evaluated exactly once in order; a failing trigger aborts), the log of any "
+                "rule or no loop counter exists, nothing if nothing fired; each trigger evaluated exactly once in order; a failing trigger aborts), the log of any "
                 "program of blocks/loops/scopes is the concatenation of its logger executions' steps, decompress(compress log) = log for "
                 "all logs with distinct names per step (which every produced step has), the name table is duplicate-free, any "
                 "permutation of a step's exported entries denotes the same map, the tree serialisation is injective for injective leaf "
@@ -43,6 +43,6 @@ CONFIG.update(
                 "objects and HashMap ordering are exercised on the generated cases, not modelled: that every configuration serialises "
                 "(Ok) and that real exports differ for differing configurations is checked per case, not proved. JSON cannot carry "
                 "non-finite floats: serde_json writes null (modelled as jsonValue; known finding json_nonfinite_violates, theorem "
-                "json_export_partial for logs of JSON-representable values). Known finding: a Logger whose rule fires where no loop "
-                "counter exists panics (logger_noloop_violates)."),
+                "json_export_partial for logs of JSON-representable values). A Logger outside any loop logs its step "
+                "without an iteration entry (fix 5b69ade; logger_step covers states with and without a counter)."),
 )
